@@ -495,3 +495,33 @@ func vfFirstDiff(a, b []byte) int {
 	}
 	return n
 }
+
+func sortStrings(s []string) {
+	for i := 1; i < len(s); i++ {
+		for j := i; j > 0 && s[j] < s[j-1]; j-- {
+			s[j], s[j-1] = s[j-1], s[j]
+		}
+	}
+}
+
+// vfLineDiff lists the lines that differ between two multi-line strings.
+func vfLineDiff(a, b string) string {
+	am := map[string]int{}
+	for _, l := range strings.Split(a, "\n") {
+		am[l]++
+	}
+	var out []string
+	for _, l := range strings.Split(b, "\n") {
+		if am[l] > 0 {
+			am[l]--
+		} else {
+			out = append(out, "+ "+l)
+		}
+	}
+	for l, n := range am {
+		for ; n > 0; n-- {
+			out = append(out, "- "+l)
+		}
+	}
+	return strings.Join(out, "\n")
+}
